@@ -1,6 +1,9 @@
 import Poulpy.Lemmas.CkksValue
 import Poulpy.Lemmas.CkksProg
 import Poulpy.Lemmas.CkksContract
+import Poulpy.Lemmas.CkksPt
+import Poulpy.Lemmas.CkksMulComp
+import Poulpy.Model.CkksMulData
 /-!
 # C16 — the CKKS evaluator tracks precision metadata through any straight-line program
 
@@ -684,22 +687,22 @@ to the plaintext `M j` within `E j`; `specM` is the call on plaintext coefficien
 call's own roundings — `2·σ·u` for an out-of-place addition, `σ·u` for the other rounding calls, `0` for the
 exact ones — to the operands' budgets carried through the call's linear map) -/
 theorem step_sem {env : Env} (he : EnvOK env) {N r : Nat} {pool : DPool} (hp : AllOK env N r pool) (op : LOp)
-    {mp : Ckks.Pool} (hm : stepR env (DPool.cts pool) op.toOp = .ok mp) :
+    (hpt : op.PtsOK env N) {mp : Ckks.Pool} (hm : stepR env (DPool.cts pool) op.toOp = .ok mp) :
     ∃ pool', dstep env N pool op = .ok pool' ∧ DPool.cts pool' = mp ∧ AllOK env N r pool' ∧
       ∀ s M E, Tracks s N pool M E →
         Tracks s N pool' (specM M op) (specE (sn r s) (ulpAt env mp op.dst) E op) :=
-  dstep_sem he hp op hm
+  dstep_sem he hp op hpt hm
 
 /-- **programs**: by induction over the call list.  The decoded result is the program on the plaintext
 polynomials up to `specRun … .2`: the sum over the calls of their own roundings (in units of the last limb of
 *their* result, times `1 + Σ‖sᵢ‖₁`) multiplied by the gain of the calls that follow (`2^bits` for
 `mul_pow2`, `2^-bits` for `div_pow2`, `1` otherwise) -/
-theorem program_sem {env : Env} (he : EnvOK env) {N r : Nat} (ops : List LOp) {pool : DPool} (hp : AllOK env N r pool)
-    {mp : Ckks.Pool} (hm : run env (DPool.cts pool) (ops.map LOp.toOp) = .ok mp) :
+theorem program_sem {env : Env} (he : EnvOK env) {N r : Nat} (ops : List LOp) (hops : ∀ op ∈ ops, op.PtsOK env N)
+    {pool : DPool} (hp : AllOK env N r pool) {mp : Ckks.Pool} (hm : run env (DPool.cts pool) (ops.map LOp.toOp) = .ok mp) :
     ∃ pool', drun env N pool ops = .ok pool' ∧ DPool.cts pool' = mp ∧ AllOK env N r pool' ∧
       ∀ s M E, Tracks s N pool M E →
         Tracks s N pool' (specRun env (sn r s) (DPool.cts pool) M E ops).1 (specRun env (sn r s) (DPool.cts pool) M E ops).2 :=
-  drun_sem he ops hp hm
+  drun_sem he ops hops hp hm
 
 def pool4_ok : AllOK env4 2 1 [xA, xB, xD] := by
   intro c hc
@@ -720,7 +723,7 @@ example : ∃ pool', drun env4 2 [xA, xB, xD] [.add false 2 0 1, .negAssign 2, .
       Near (decC s c t) (1 * (2 ^ 1 * (-1 * (1 * M 0 t + 1 * M 1 t))) + -1 * (1 * M 1 t)) (wrap c)
         (sn 1 s * (2 * (2 * (2 ^ 4 / 2 ^ 8)) + 2 ^ 3 / 2 ^ 8) + 2 * E 0 + 3 * E 1) := by
   obtain ⟨pool', h, hc, _, hv⟩ := program_sem env4_ok [.add false 2 0 1, .negAssign 2, .mulPow2Assign 2 1,
-    .rescaleAssign 1 1, .addAssign true 2 1] pool4_ok (mp := ([⟨⟨4, 8⟩, 3⟩, ⟨⟨4, 3⟩, 2⟩, ⟨⟨4, 3⟩, 2⟩] : Ckks.Pool)) (by decide)
+    .rescaleAssign 1 1, .addAssign true 2 1] (by intro op hop; simp at hop; rcases hop with rfl | rfl | rfl | rfl | rfl <;> trivial) pool4_ok (mp := ([⟨⟨4, 8⟩, 3⟩, ⟨⟨4, 3⟩, 2⟩, ⟨⟨4, 3⟩, 2⟩] : Ckks.Pool)) (by decide)
   refine ⟨pool', h, hc, fun s M E ht c hc t htN => ?_⟩
   have := hv s M E ht 2 c hc t htN
   have h1 : stepR env4 (DPool.cts [xA, xB, xD]) (LOp.add false 2 0 1).toOp = .ok [⟨⟨4, 8⟩, 3⟩, ⟨⟨4, 4⟩, 2⟩, ⟨⟨4, 4⟩, 2⟩] := by decide
@@ -841,6 +844,197 @@ example : ∀ t, t < 2 → Near (decC [] xBp t) (decC [] xB t + 1 * ((([16, 0] :
     ⟨⟨rfl, rfl⟩, fun t ht => by
       have : t = 0 ∨ t = 1 := by omega
       rcases this with rfl | rfl <;> exact ⟨0, 0, by decide, by simp⟩⟩
+
+/-- **ZNX plaintext addend, in place — no contract** (`PtAddContract` discharged on the data path: the fused right shift
+of the body column, `C08.rsh_add_value` / `rsh_sub_value` for its value, `Bound.rshCoef_fused_bound` for its limbs,
+`C02L.torus_phase3` for the phase): the value moves by the plaintext message `Y_t / 2^log_delta`, `Y_t` the integer the
+plaintext limbs hold at coefficient `t` -/
+theorem add_pt_assign_data_sem {env : Env} (he : EnvOK env) {N r : Nat} {c : DCt} (hc : DOK env N r c) (sub : Bool)
+    {pt : Pt} {pg : Col} (hp : PtOK env N pt pg) {m : Ct}
+    (hm : withPt env pt c.ct (addPtZnxAssign env c.ct pt) = .ok m) :
+    ∃ c', dAddPtAssign env N sub c pt pg = .ok c' ∧ c'.ct = m ∧ DOK env N r c' ∧
+      ∀ s t, t < N → Near (decC s c' t)
+        (decC s c t + sg sub * ((valCoeff env.base2k pg t : ℚ) / 2 ^ pt.md.logDelta)) (wrap c') (sn r s * ulp c') :=
+  dAddPtAssign_sem he hc sub hp hm
+
+/-- the plaintext `1` at `log_delta = 4` on two limbs -/
+def pgOne : Col := [[1, 0], [0, 0]]
+def pgOne_ok : PtOK env4 2 ⟨⟨4, 4⟩, 4⟩ pgOne := ⟨by decide, by decide⟩
+
+example : ∃ c', dAddPtAssign env4 2 false xB ⟨⟨4, 4⟩, 4⟩ pgOne = .ok c' ∧
+    ∀ s t, t < 2 → Near (decC s c' t) (decC s xB t + 1 * ((valCoeff 4 pgOne t : ℚ) / 2 ^ 4)) (wrap c') (sn 1 s * ulp c') :=
+  let ⟨c', h, _, _, hv⟩ := add_pt_assign_data_sem env4_ok xB_ok false pgOne_ok (m := xB.ct) (by decide)
+  ⟨c', h, hv⟩
+
+/-- **ZNX plaintext addend, out of place — no contract** -/
+theorem add_pt_into_data_sem {env : Env} (he : EnvOK env) {N r : Nat} {dst a : DCt} (hd : DOK env N r dst) (ha : DOK env N r a)
+    (sub : Bool) {pt : Pt} {pg : Col} (hp : PtOK env N pt pg) {m : Ct}
+    (hm : withPt env pt dst.ct (addPtZnxInto env dst.ct a.ct pt) = .ok m) :
+    ∃ c', dAddPtInto env N sub dst a pt pg = .ok c' ∧ c'.ct = m ∧ DOK env N r c' ∧
+      ∀ s t, t < N → Near (decC s c' t)
+        (decC s a t + sg sub * ((valCoeff env.base2k pg t : ℚ) / 2 ^ pt.md.logDelta)) (wrap c') (2 * sn r s * ulp c') :=
+  dAddPtInto_sem he hd ha sub hp hm
+
+example : ∃ c', dAddPtInto env4 2 true xD xA ⟨⟨4, 4⟩, 4⟩ pgOne = .ok c' ∧ c'.ct = ⟨⟨4, 4⟩, 2⟩ :=
+  let ⟨c', h, hc, _⟩ := add_pt_into_data_sem env4_ok xD_ok xA_ok true pgOne_ok (m := ⟨⟨4, 4⟩, 2⟩) (by decide)
+  ⟨c', h, hc⟩
+
+/-! ### composition through multiplications
+
+`mul_ct_sem` is about the *decoded operands*, which a tracked ciphertext determines only modulo its own `2^β`.
+That the product nevertheless tracks the product of the plaintexts is the budget invariant read at the level of values:
+the core multiplies operands masked to `effective_k` bits (their value is on the grid `2^-log_delta·ℤ`), and the result
+budget of an accepted multiplication satisfies `β' + δ_b ≤ β_a`, `β' + δ_a ≤ β_b` (`mulCt_grid`), so every wrap term
+`2^β_a·q ⋆ dec(b)` is a whole multiple of `2^β'`.  No hypothesis "the value stays inside the budget" is needed for the
+tracking modulo `2^β'` — only to read the tracked value without the modulus. -/
+
+/-- **composition lemma** on coefficient lists: operands on the grids `2^-δa·ℤ`, `2^-δb·ℤ` that track `Ma`, `Mb`
+modulo `2^βa`, `2^βb` have a negacyclic product that tracks `Ma ⋆ Mb` modulo `2^β'`, within `N·(Ba·Eb + Ea·(Bb+Eb))` -/
+theorem mul_comp {N : Nat} {A B Ma Mb : List ℚ} {βa βb δa δb β' : Nat} {Ea Eb Ba Bb : ℚ}
+    (hA : A.length = N) (hB : B.length = N) (hMa : Ma.length = N) (hMb : Mb.length = N)
+    (nA : ∀ t, t < N → Near (A.getD t 0) (Ma.getD t 0) (2 ^ βa) Ea)
+    (nB : ∀ t, t < N → Near (B.getD t 0) (Mb.getD t 0) (2 ^ βb) Eb)
+    (gA : ∀ t, t < N → ∃ n : ℤ, A.getD t 0 * 2 ^ δa = n) (gB : ∀ t, t < N → ∃ n : ℤ, B.getD t 0 * 2 ^ δb = n)
+    (sA : SupLe Ma Ba) (sB : SupLe Mb Bb) (hBa : 0 ≤ Ba) (hBb : 0 ≤ Bb) (hEa : 0 ≤ Ea) (hEb : 0 ≤ Eb)
+    (h1 : β' + δb ≤ βa) (h2 : β' + δa ≤ βb) (t : Nat) (ht : t < N) :
+    Near ((qNegMul A B).getD t 0) ((qNegMul Ma Mb).getD t 0) (2 ^ β') (N * (Ba * Eb + Ea * (Bb + Eb))) :=
+  Ckks.mul_comp hA hB hMa hMb nA nB gA gB sA sB hBa hBb hEa hEb h1 h2 t ht
+
+/-- `(3 + 16·q) ⋆ 2` tracks `3 ⋆ 2 = 6` modulo `2^2` although the left operand is only known modulo `2^4` -/
+example : Near ((qNegMul [3 + 16 * 5] [2]).getD 0 0) ((qNegMul [3] [2]).getD 0 0) (2 ^ 2) (1 * (3 * 0 + 0 * (2 + 0))) :=
+  mul_comp (N := 1) (βa := 4) (βb := 3) (δa := 0) (δb := 0) (β' := 2) rfl rfl rfl rfl
+    (fun t ht => by
+      have : t = 0 := by omega
+      subst this; exact ⟨5, 0, by norm_num, by norm_num⟩)
+    (fun t ht => by
+      have : t = 0 := by omega
+      subst this; exact ⟨0, 0, by norm_num, by norm_num⟩)
+    (fun t ht => by
+      have : t = 0 := by omega
+      subst this; exact ⟨83, by norm_num⟩)
+    (fun t ht => by
+      have : t = 0 := by omega
+      subst this; exact ⟨2, by norm_num⟩)
+    (by intro x hx; simp at hx; subst hx; norm_num) (by intro x hx; simp at hx; subst hx; norm_num)
+    (by norm_num) (by norm_num) (by norm_num) (by norm_num) (by norm_num) (by norm_num) 0 (by norm_num)
+
+/-- **ct × ct on tracked ciphertexts** (`am`, `bm`: the operands as the product reads them, `MaskedOf`; the product's own
+contract on them): the result tracks `Ma ⋆ Mb` modulo its budget -/
+theorem mul_ct_tracks {env : Env} {N : Nat} {dst a b c' : DCt} {m : Ct} (hm : mulInto env dst.ct a.ct b.ct = .ok m)
+    (hmd : c'.md = m.md) {s : List Poly} {U εa εb : ℚ} {am bm : GLWE}
+    (ha : MaskedOf s N a am εa) (hb : MaskedOf s N b bm εb)
+    (hc : ∀ q, mulCtParams env dst.ct a.ct b.ct = .ok q →
+      ProdContract s N c'.g am (phaseP s N bm) (bm.base2k * bm.size) q.cnv U)
+    {Ma Mb : List ℚ} {Ea Eb Ba Bb : ℚ} (hMa : Ma.length = N) (hMb : Mb.length = N)
+    (ta : ∀ t, t < N → Near (decC s a t) (Ma.getD t 0) (wrap a) Ea)
+    (tb : ∀ t, t < N → Near (decC s b t) (Mb.getD t 0) (wrap b) Eb)
+    (sA : SupLe Ma Ba) (sB : SupLe Mb Bb) (hBa : 0 ≤ Ba) (hBb : 0 ≤ Bb) (hEa : 0 ≤ Ea) (hEb : 0 ≤ Eb)
+    (hεa : 0 ≤ εa) (hεb : 0 ≤ εb) :
+    ∀ t, t < N → Near (decC s c' t) ((qNegMul Ma Mb).getD t 0) (wrap c')
+      (U * ulp c' + N * (Ba * (Eb + εb) + (Ea + εa) * (Bb + (Eb + εb)))) :=
+  Ckks.mul_ct_tracks hm hmd ha hb hc hMa hMb ta tb sA sB hBa hBb hEa hEb hεa hεb
+
+def xA_val0 : valCoeff 4 (phase [] xA.g) 0 = 309 := by decide
+def xA_val1 : valCoeff 4 (phase [] xA.g) 1 = 454 := by decide
+def xTwo_val0 : valCoeff 4 (phase [] xTwo.g) 0 = 2 := by decide
+def xTwo_val1 : valCoeff 4 (phase [] xTwo.g) 1 = 0 := by decide
+def xA_dec0 : decG [] xA.g 8 0 = 309 / 16 := by
+  have h : decG [] xA.g 8 0 = dec (valCoeff 4 (phase [] xA.g) 0) (4 * 3) 8 := rfl
+  rw [h, xA_val0]; norm_num [dec, tor]
+def xA_dec1 : decG [] xA.g 8 1 = 454 / 16 := by
+  have h : decG [] xA.g 8 1 = dec (valCoeff 4 (phase [] xA.g) 1) (4 * 3) 8 := rfl
+  rw [h, xA_val1]; norm_num [dec, tor]
+def xTwo_dec0 : decG [] xTwo.g 4 0 = 2 := by
+  have h : decG [] xTwo.g 4 0 = dec (valCoeff 4 (phase [] xTwo.g) 0) (4 * 1) 4 := rfl
+  rw [h, xTwo_val0]; norm_num [dec, tor]
+def xTwo_dec1 : decG [] xTwo.g 4 1 = 0 := by
+  have h : decG [] xTwo.g 4 1 = dec (valCoeff 4 (phase [] xTwo.g) 1) (4 * 1) 4 := rfl
+  rw [h, xTwo_val1]; norm_num [dec, tor]
+
+/-- `xA` (12 bits, `δ + β = 12`) and `xTwo` (4 bits) are their own masked forms: values on the grid, no masking error -/
+def xA_masked : MaskedOf [] 2 xA xA.g 0 :=
+  ⟨fun t ht => by
+      have : t = 0 ∨ t = 1 := by omega
+      rcases this with rfl | rfl
+      · exact ⟨309, by show decG [] xA.g 8 0 * 2 ^ 4 = _; rw [xA_dec0]; norm_num⟩
+      · exact ⟨454, by show decG [] xA.g 8 1 * 2 ^ 4 = _; rw [xA_dec1]; norm_num⟩,
+   fun t _ => by simp [decC]⟩
+def xTwo_masked : MaskedOf [] 2 xTwo xTwo.g 0 :=
+  ⟨fun t ht => by
+      have : t = 0 ∨ t = 1 := by omega
+      rcases this with rfl | rfl
+      · exact ⟨2, by show decG [] xTwo.g 4 0 * 2 ^ 0 = _; rw [xTwo_dec0]; norm_num⟩
+      · exact ⟨0, by show decG [] xTwo.g 4 1 * 2 ^ 0 = _; rw [xTwo_dec1]; norm_num⟩,
+   fun t _ => by simp [decC]⟩
+
+example : ∀ t, t < 2 → Near (decC [] xProd t) ((qNegMul (decP [] 2 xA) (decP [] 2 xTwo)).getD t 0) (wrap xProd)
+    (0 * ulp xProd + 2 * (40 * (0 + 0) + (0 + 0) * ((1 + 1) + (0 + 0)))) :=
+  mul_ct_tracks (env := env4) (dst := xProd) (a := xA) (b := xTwo) (m := ⟨⟨0, 0⟩, 1⟩) (by decide) rfl xA_masked xTwo_masked
+    (fun q hq => by
+      have : q = ⟨0, 0, 12⟩ := by
+        have h : mulCtParams env4 xProd.ct xA.ct xTwo.ct = .ok ⟨0, 0, 12⟩ := by decide
+        rw [h] at hq; injection hq with hq; exact hq.symm
+      subst this
+      exact ⟨fun t ht => by
+        have : t = 0 ∨ t = 1 := by omega
+        rcases this with rfl | rfl <;> exact ⟨0, 0, by decide, by simp⟩⟩)
+    (by simp [decP, decPG]) (by simp [decP, decPG])
+    (fun t ht => by rw [show (decP [] 2 xA).getD t 0 = decC [] xA t from decPG_getD _ _ _ _ _ ht]; exact Near.refl _ _)
+    (fun t ht => by rw [show (decP [] 2 xTwo).getD t 0 = decC [] xTwo t from decPG_getD _ _ _ _ _ ht]; exact Near.refl _ _)
+    (by
+      intro x hx
+      simp only [decP, decPG, List.mem_map, List.mem_range] at hx
+      obtain ⟨t, ht, rfl⟩ := hx
+      have : t = 0 ∨ t = 1 := by omega
+      rcases this with rfl | rfl
+      · show |decG [] xA.g 8 0| ≤ 40; rw [xA_dec0]; norm_num [abs_le]
+      · show |decG [] xA.g 8 1| ≤ 40; rw [xA_dec1]; norm_num [abs_le])
+    (by
+      intro x hx
+      simp only [decP, decPG, List.mem_map, List.mem_range] at hx
+      obtain ⟨t, ht, rfl⟩ := hx
+      have : t = 0 ∨ t = 1 := by omega
+      rcases this with rfl | rfl
+      · show |decG [] xTwo.g 4 0| ≤ 1 + 1; rw [xTwo_dec0]; norm_num [abs_le]
+      · show |decG [] xTwo.g 4 1| ≤ 1 + 1; rw [xTwo_dec1]; norm_num)
+    (by norm_num) (by norm_num) (by norm_num) (by norm_num) (by norm_num) (by norm_num)
+
+/-! ### the data path of the products and composites (`Model/CkksMulData.lean`)
+
+`dMulInto`, `dSquareInto`, `dMulPtInto`, `dAddMany`, `dDotCt`, `dDotPt` are the core call sequences of
+`leveled/default/mul.rs` and `leveled/delegates/composite.rs` on the executable core models of C05 / C02 / C08; `pdriver ckks`
+runs them (`xstep`) and `./check C16` compares the limbs after every call with the library on the four back ends (the raw
+tensor key comes from the harness).  Their outcome and metadata are those of the metadata model by construction: -/
+
+theorem withMeta_ok_inv {r : Res Ct} {k : Meta → Outcome DCt} {c' : DCt} (h : withMeta r k = .ok c') :
+    ∃ m, r = .ok m ∧ k m.md = .ok c' := by
+  cases r with
+  | ok m => exact ⟨m, rfl, h⟩
+  | err e c => simp [withMeta] at h
+  | panic p => simp [withMeta] at h
+
+/-- the product's data path returns `Ok` only when the metadata model does, with its metadata -/
+theorem mul_data_meta {env : Env} {N : Nat} {mk : MulKey} {dst a b c' : DCt} (h : dMulInto env N mk dst a b = .ok c') :
+    ∃ m, mulInto env dst.ct a.ct b.ct = .ok m ∧ c'.md = m.md := by
+  obtain ⟨m, hm, hk⟩ := withMeta_ok_inv h
+  refine ⟨m, hm, ?_⟩
+  cases hq : mulCtParams env dst.ct a.ct b.ct with
+  | error e => simp [hq] at hk
+  | ok q =>
+    simp only [hq, ofOpt] at hk
+    split at hk
+    · injection hk with hk; rw [← hk]
+    · cases hk
+
+/-- a tensor key whose limbs are zero (one row, one limb): the gadget product vanishes, the result is the normalised first columns -/
+def zk4 : Core.GGLWE := { base2k := 4, n := 2, colsIn := 1, colsOut := 2, dsize := 1, dnum := 1, size := 1, cells := [[[[0, 0]], [[0, 0]]]] }
+
+/-- the executed product of `xA` and `xTwo` into one limb: body `2·phase(xA) mod 2^4`, balanced -/
+example : dMulInto env4 2 ⟨false, zk4⟩ xProd xA xTwo
+      = .ok ⟨{ base2k := 4, k := 4, n := 2, cols := [[[-6, -4]], [[4, 4]]] }, ⟨0, 0⟩⟩ ∧
+    ∃ m, mulInto env4 xProd.ct xA.ct xTwo.ct = .ok m ∧ (⟨0, 0⟩ : Meta) = m.md :=
+  ⟨by rfl, mul_data_meta (N := 2) (mk := ⟨false, zk4⟩) (dst := xProd) (a := xA) (b := xTwo)
+    (c' := ⟨{ base2k := 4, k := 4, n := 2, cols := [[[-6, -4]], [[4, 4]]] }, ⟨0, 0⟩⟩) (by rfl)⟩
 
 end Exact
 
